@@ -47,7 +47,55 @@ def safe(content, row, placement):
     return not (prev.startswith("# METADATA") or prev.startswith("# entrypoint") or "regal ignore:" in prev)
 
 
+def part_spelling(ctx):
+    """Directive.names (Lean) ~ the real parser + ast.ignore_directives, on comment texts: exhaustive over a small
+    token alphabet (names, commas, blanks, tabs, the marker, other text) up to 6 tokens, plus random texts with
+    non-ASCII and unusual white space; and the property's own reading on well-formed spellings (theorem
+    names_spelling): the names are exactly the listed ones."""
+    import itertools
+    rng = ctx.rng("spelling")
+    toks = ["regal ignore:", "a", "rule-x", ",", " ", "\t", "x y"]
+    texts = set()
+    for n in range(0, 5 if ctx.quick else 6):
+        for combo in itertools.product(toks, repeat=n):
+            texts.add("".join(combo))
+    texts = sorted(texts)
+    if ctx.quick and len(texts) > 2500:
+        texts = rng.sample(texts, 2500)
+    extra = []
+    alphabet = ["regal ignore:", "regal ignore: ", "a", "b-c", "é", ",", ", ", " ,", " ", "  ", "\t", "\u00a0", "\x0b", "\x0c", "#", "regal", "ignore:", ":", "todo-comment"]
+    for _ in range(300 if ctx.quick else 5000):
+        extra.append("".join(rng.choice(alphabet) for _ in range(rng.randint(1, 9))))
+    # well-formed spellings with their expected names (what names_spelling states)
+    wf = []
+    for _ in range(150 if ctx.quick else 2000):
+        names = [rng.choice(["a", "rule-x", "todo-comment", "é1", "x_y"]) for _ in range(rng.randint(1, 4))]
+        ws = lambda: "".join(rng.choice([" ", "\t", "\x0c"]) for _ in range(rng.randint(0, 2)))
+        body = ",".join(ws() + n + ws() for n in names)
+        wf.append((rng.choice(["", " ", "  ", "\t "]) + "regal ignore:" + body, names))
+    cases = [{"id": k, "op": "c06.names", "text": t} for k, t in enumerate(texts + extra + [w[0] for w in wf])]
+    impl, model = ctx.impl(cases, procs=8), ctx.model(cases)
+    nwf0 = len(texts) + len(extra)
+    for c in cases:
+        i = impl[c["id"]].get("out") or {}
+        m = model[c["id"]].get("out")
+        if "parseError" in i:
+            ctx.count("spelling:unparseable-comment")
+            continue
+        got = i.get("names")
+        ctx.seen(c, ("sp", c["text"]) if got else None)
+        ctx.count("spelling:" + ("directive" if got is not None else "no-directive"))
+        if "error" in i or got != m:
+            ctx.brk("comments.rego ignore_directives ~ Directive.names", c, i, m)
+        if c["id"] >= nwf0:
+            want = wf[c["id"] - nwf0][1]
+            if got != want:
+                ctx.fail("a well-formed directive (comma list with white space) does not name exactly the listed rules",
+                         c, None, {"names": got, "listed": want})
+
+
 def run(ctx):
+    part_spelling(ctx)
     rng = ctx.rng()
     nb = 14 if ctx.quick else 120
     per = 10 if ctx.quick else 24
